@@ -36,7 +36,9 @@ META = dict(
          "exits pending together: the flush executes the one that the close cancelled; a MARKET exit submitted in a "
          "position hook during matching: executed by the matching loop and again by the flush). The other call sites "
          "(matching loops, Sandbox.cancel_all_orders, the modification handler) test is_active before they call. "
-         "Strategy hooks and trade boundaries (after reset_trade_orders) are observation points for ActiveReported.",
+         "Strategy hooks and trade boundaries (after reset_trade_orders) are observation points for ActiveReported. "
+         "Isolated-margin sessions reach the liquidation price: the liquidation order gets a repeated execute() and a late "
+         "cancel() injected, and the record of every final order must be unchanged in the state seen before the next call.",
     design_ref="4/C05")
 
 
@@ -88,7 +90,7 @@ def run(ctx):
                 raise Machinery("vacuity: action %s never taken in %s" % (a, label))
     # ---------------------------------------------------------------- R + T per kind
     total = bad_total = n_r = n_t = n_v = n_vev = 0
-    vivo_dups, vivo_obs = {}, [0]
+    vivo_dups, vivo_obs, liq = {}, [0], [0]
     kinds = {}
     for kind in ("futures", "spot"):
         traces, hists, tid = [], {}, 0
@@ -112,6 +114,13 @@ def run(ctx):
         from ..drivers import acct_vivo
         vtr = acct_vivo.run_many(acct_vivo.specs(kind, ctx.pick(6, 100), ctx.seed + 1, first_id=tid + len(ttr) + 1,
                                                    minutes=ctx.pick((60, 90), (60, 90, 120)), multi=True))
+        if kind == "futures":
+            # isolated-margin sessions that reach the liquidation price: the simulator's own liquidation order, with a
+            # repeated execute() and a late cancel() injected right after it became final
+            ltr = acct_vivo.run_many(acct_vivo.liquidation_specs(ctx.pick(3, 30), ctx.seed, first_id=tid + len(ttr) + len(vtr) + 1,
+                                                                 minutes=ctx.pick((60, 90), (90, 120))))
+            liq[0] += sum(t.get("liquidations", 0) for t in ltr)
+            vtr += ltr
         n_v += len(vtr)
         n_vev += sum(len(t["ev"]) for t in vtr)
         for t in vtr:
@@ -149,8 +158,9 @@ def run(ctx):
     ctx.coverage.update({
         "traces_validated_against_impl": total, "transitions_replayed": n_r, "random_histories": n_t,
         "in_vivo_backtests": n_v, "in_vivo_order_events": n_vev,
-        "in_vivo_calls_on_final_orders_made_by_jesse_itself": vivo_dups,
+        "in_vivo_calls_on_final_orders_by_jesse_itself_and_injected_on_liquidation_orders": vivo_dups,
         "in_vivo_observation_points_between_calls": vivo_obs[0],
+        "in_vivo_liquidation_orders_with_injected_duplicate_calls": liq[0],
         "rejected_traces": bad_total, "fill_effects_and_special_cases_seen": kinds, "samples": samples,
         "rule": "R: one trace per transition of the Dups instances of Futures.tla / Spot.tla (shortest witness, last call "
                 "judged from the logged pre-state). T: random histories of 30-60 operations with 30% duplicate / late "
